@@ -359,19 +359,8 @@ func (s *c05Sys) Apply(op string) (string, string, string) {
 		s.w.setPrimaryWriteOutage(s.writeFail)
 		return "ok", "", ""
 	case "sweep":
-		// one pass of performStateCleanup's body (the loop itself sleeps forever on the virtual clock)
-		st.Mutex.Lock()
-		for k, v := range st.localAuthData {
-			if v.ExpiresAt.Before(vclock.Now()) {
-				delete(st.localAuthData, k)
-			}
-		}
-		for k, v := range st.vipPushCookie {
-			if v.ExpiresAt.Before(vclock.Now()) {
-				delete(st.vipPushCookie, k)
-			}
-		}
-		st.Mutex.Unlock()
+		// one pass of the real performStateCleanup (verifgen turns its sleep into a return)
+		st.performStateCleanup(30)
 		return "ok", "", ""
 	case "deviceApprove":
 		ok := s.f.ApproveNewest(args[0])
@@ -663,6 +652,62 @@ func (s *c05Sys) Apply(op string) (string, string, string) {
 	return fmt.Sprintf("upgrade-%x", gained), "", ""
 }
 
+// c05CaseTwins: with disable_username_normalization, "alice" and "Alice" are two
+// users.  Every factor of one presented in a session of the other must be refused.
+func c05CaseTwins(c *vfeng.Ctx) {
+	lo, up := "alice", "Alice"
+	w := vfNewWorld(vfOpts{CertBackends: []string{"U2F"}, WebUIBackends: []string{"password"}, EnableTOTP: true, EnableBootstrap: true, NoNormalize: true, CliTokenLifetime: time.Hour,
+		Users: map[string]string{lo: "pw-lower", up: "pw-upper"}})
+	defer w.Close()
+	w.vfGiveTOTP(lo, 1)
+	w.vfGiveTOTP(up, 1)
+	ck := map[string]*http.Cookie{}
+	for u, pw := range map[string]string{lo: "pw-lower", up: "pw-upper"} {
+		r := w.Do(vfReq{Method: "POST", Path: "/api/v0/login", Form: url.Values{"username": {u}, "password": {pw}}}.Build())
+		v := c05SetCookie(r)
+		sub, _, _ := c05Decode(w, v)
+		if v == "" || sub != u {
+			c.Violate("C05|case-twins|login-cookie|loginHandler", fmt.Sprintf("login as %q (normalisation disabled) gave a cookie for %q", u, sub), map[string]string{"part": "case-twins", "step": "login"})
+			return
+		}
+		ck[u] = &http.Cookie{Name: authCookieName, Value: v}
+	}
+	tok := map[string]string{}
+	for _, u := range []string{lo, up} {
+		r := w.Do(vfReq{Method: "GET", Path: "/showAuthToken", Cookies: []*http.Cookie{ck[u]}}.Build())
+		tok[u] = c06JWSRe.FindString(string(r.Body))
+		if tok[u] == "" {
+			c.Res.HarnessErr = fmt.Sprintf("case twins: no CLI token shown to %s (status %d)", u, r.Code)
+			return
+		}
+	}
+	for _, dir := range [][2]string{{lo, up}, {up, lo}} {
+		sess, other := dir[0], dir[1]
+		pt := map[string]string{"part": "case-twins", "session": sess, "factor_of": other}
+		// CLI token of the other user
+		r := w.Do(vfReq{Method: "GET", Path: "/sendAuthDocument", Cookies: []*http.Cookie{ck[sess]}, Form: url.Values{"token": {tok[other]}, "port": {"12345"}}}.Build())
+		c.Eval(1)
+		if loc, _ := url.Parse(r.Header.Get("Location")); loc != nil && loc.Query().Get("auth_cookie") != "" {
+			sub, lvl, _ := c05Decode(w, loc.Query().Get("auth_cookie"))
+			c.Violate("C05|cli-cookie|SendAuthDocumentHandler|token-of-case-twin", fmt.Sprintf("session of %q presented the CLI token shown to %q and received a CLI cookie for %q level %#x", sess, other, sub, lvl), pt)
+		} else {
+			c.Class(fmt.Sprintf("case-twins|cli|refused-%d", r.Code), pt)
+		}
+		// TOTP code of the other user
+		vclock.Advance(31 * time.Second)
+		r = w.Do(vfReq{Method: "POST", Path: totpAuthPath, Cookies: []*http.Cookie{ck[sess]}, Form: url.Values{"OTP": {vfTOTPCode(other, vclock.Now())}}}.Build())
+		c.Eval(1)
+		if v := c05SetCookie(r); v != "" {
+			sub, lvl, _ := c05Decode(w, v)
+			if lvl&AuthTypeTOTP != 0 {
+				c.Violate("C05|factor-gained-unproven|validateUserTOTP|code-of-case-twin", fmt.Sprintf("session of %q presented the TOTP code of %q and got a cookie for %q level %#x", sess, other, sub, lvl), pt)
+				continue
+			}
+		}
+		c.Class(fmt.Sprintf("case-twins|totp|refused-%d", r.Code), pt)
+	}
+}
+
 var c05Families = []string{"vip", "totp", "u2f", "bootstrap", "cli"}
 
 func c05Depth(fam string, thorough bool) int {
@@ -677,7 +722,7 @@ func init() {
 	vfRegister(&vfeng.Check{
 		ID:    "C05",
 		Level: "model_checking",
-		Rule:  "explicit-state BFS with canonical-state deduplication over histories of two users and three cookie jars on the real handlers, one search per second-factor family, for TOTP and bootstrap OTP including a primary store that answers reads but refuses writes (Symantec VIP OTP+push against a stateful fake, local TOTP, U2F with real soft tokens, bootstrap OTP, CLI token); the adversary attaches any cookie/push cookie it ever obtained to any request, or two session cookies of different users in either order; after every transition each Set-Cookie is decoded and every gained factor bit must be justified by ground truth (whose code / push / device / value it was, freshness, first use); canonical state = profiles' replay counters, cookie pools as (subject, level), push transactions (owner, approved, expired), challenges, rate-limit ages, clock",
+		Rule:  "case-twin users (normalisation disabled): CLI token and TOTP code of one presented in a session of the other; explicit-state BFS with canonical-state deduplication over histories of two users and three cookie jars on the real handlers, one search per second-factor family, for TOTP and bootstrap OTP including a primary store that answers reads but refuses writes (Symantec VIP OTP+push against a stateful fake, local TOTP, U2F with real soft tokens, bootstrap OTP, CLI token); the adversary attaches any cookie/push cookie it ever obtained to any request, or two session cookies of different users in either order; after every transition each Set-Cookie is decoded and every gained factor bit must be justified by ground truth (whose code / push / device / value it was, freshness, first use); canonical state = profiles' replay counters, cookie pools as (subject, level), push transactions (owner, approved, expired), challenges, rate-limit ages, clock",
 		Assumptions: []string{"the victim approves only pushes on her own device; the fake VIP lets only the owner approve", "the adversary holds at most one password session per user plus its upgrades (re-logins differ only in issue time)", "WebAuthn/FIDO2 and Okta flows are not driven (CBOR attestation and an Okta backend are not modelled)"},
 		Bounds: func(tier string) map[string]interface{} {
 			m := map[string]interface{}{}
@@ -688,6 +733,9 @@ func init() {
 		},
 		Shards: func(tier string) int { return 15 },
 		Run: func(c *vfeng.Ctx) {
+			if c.Shard == c.NShards-1 {
+				c05CaseTwins(c)
+			}
 			// 15 shards = 5 families x 3 sub-shards (by first operation)
 			fam := c05Families[c.Shard%len(c05Families)]
 			sub := &vfeng.Ctx{Check: c.Check, Tier: c.Tier, Seed: c.Seed, Shard: c.Shard / len(c05Families), NShards: (c.NShards + len(c05Families) - 1) / len(c05Families), Res: c.Res, Deadline: c.Deadline}
@@ -705,9 +753,18 @@ func init() {
 		Replay: func(c *vfeng.Ctx, raw json.RawMessage) (bool, string) {
 			var h struct {
 				History []string `json:"history"`
+				Part    string   `json:"part"`
 			}
 			if err := json.Unmarshal(raw, &h); err != nil {
 				return false, err.Error()
+			}
+			if h.Part == "case-twins" {
+				n := len(c.Res.Violations)
+				c05CaseTwins(c)
+				if len(c.Res.Violations) > n {
+					return true, c.Res.Violations[n].Key + " :: " + c.Res.Violations[n].What
+				}
+				return false, "case twins are kept apart"
 			}
 			// the family is recognisable from the operations
 			fam := "vip"
